@@ -134,8 +134,15 @@ def isBlank (c : Char) : Bool :=
   c == '\u1680' || (0x2000 ≤ c.toNat && c.toNat ≤ 0x200a) || c == '\u2028' || c == '\u2029' ||
   c == '\u202f' || c == '\u205f' || c == '\u3000'
 
-def stripBlank (s : List Char) : List Char :=
-  ((s.dropWhile isBlank).reverse.dropWhile isBlank).reverse
+def stripBy (p : Char → Bool) (s : List Char) : List Char :=
+  ((s.dropWhile p).reverse.dropWhile p).reverse
+
+def stripBlank (s : List Char) : List Char := stripBy isBlank s
+
+/-- the blanks `int(text)` strips: `str.isspace()` except the ASCII separators 0x1c–0x1f
+(CPython converts non-ASCII blanks to spaces, then strips C `isspace` characters) -/
+def isIntBlank (c : Char) : Bool :=
+  isBlank c && !(c == '\x1c' || c == '\x1d' || c == '\x1e' || c == '\x1f')
 
 /-- digit loop of `int(text)`: ASCII digits, single underscores allowed between digits -/
 def pyIntGo (acc : Nat) (prevDigit : Bool) : List Char → Option Nat
@@ -157,7 +164,7 @@ def pyIntBody (neg : Bool) (body : List Char) : Option Int :=
     | some n => some (if neg then -(Int.ofNat n) else Int.ofNat n)
 
 def pyInt (s : List Char) : Option Int :=
-  match stripBlank s with
+  match stripBy isIntBlank s with
   | '-' :: r => pyIntBody true r
   | '+' :: r => pyIntBody false r
   | r => pyIntBody false r
